@@ -10,6 +10,7 @@ import (
 	"runtime/metrics"
 	"sort"
 	"strings"
+	"sync"
 	"time"
 )
 
@@ -94,6 +95,10 @@ type K struct {
 	StateFn func() string
 
 	lastProgress time.Time // real time; read by the watchdog
+
+	gmu       sync.Mutex
+	gates     []*GateRec
+	HoldGates bool
 }
 
 // NewK builds a kernel handle. Must be called inside the bubble.
@@ -450,4 +455,70 @@ func FormatSummary(m map[string]int) string {
 		fmt.Fprintf(&sb, "%s x%d; ", k, m[k])
 	}
 	return sb.String()
+}
+
+// ---------------------------------------------------------------------------------------
+// Gates: controller-owned park points inside harness code that runs on system goroutines.
+
+// GateRec is one goroutine parked at a gate.
+type GateRec struct {
+	Name     string
+	ch       chan struct{}
+	Released bool
+	ArrStep  int
+	RelStep  int
+}
+
+// Park blocks the calling (system) goroutine until the controller releases the gate.
+// Must be called from inside the bubble.
+func (k *K) Park(name string) {
+	g := &GateRec{Name: name, ch: make(chan struct{}), ArrStep: k.StepN}
+	k.gmu.Lock()
+	k.gates = append(k.gates, g)
+	k.gmu.Unlock()
+	<-g.ch
+}
+
+// Parked lists gates whose goroutine is waiting, in arrival order.
+func (k *K) Parked() []*GateRec {
+	k.gmu.Lock()
+	defer k.gmu.Unlock()
+	var out []*GateRec
+	for _, g := range k.gates {
+		if !g.Released {
+			out = append(out, g)
+		}
+	}
+	return out
+}
+
+// Release opens a gate.
+func (k *K) Release(g *GateRec) {
+	k.gmu.Lock()
+	if g.Released {
+		k.gmu.Unlock()
+		return
+	}
+	g.Released = true
+	g.RelStep = k.StepN
+	k.gmu.Unlock()
+	close(g.ch)
+}
+
+// GateSource offers one release action per parked gate. HoldGates suspends it.
+func (k *K) GateSource(add func(Action)) {
+	if k.HoldGates {
+		return
+	}
+	for _, g := range k.Parked() {
+		g := g
+		add(Action{Key: "release " + g.Name, W: 3, Class: Gate, Do: func() { k.Release(g) }})
+	}
+}
+
+// ReleaseAll opens every parked gate (end-of-run cleanup).
+func (k *K) ReleaseAll() {
+	for _, g := range k.Parked() {
+		k.Release(g)
+	}
 }
